@@ -2,7 +2,7 @@
    buckets). Identity and lifetime predicates are the ones regenerated from _dns.py (Gen.DnsPure).
    After the C05 repair a bucket holds one live object per identity, so a bucket is a list of
    records; `store.pop(record); store[record] = record` = remove the equal element, append. *)
-From ZC Require Import Model.Base Model.PyRec Model.Dict Model.Re Gen.Const Gen.DnsPure.
+From ZC Require Import Model.Base Model.PyRec Model.Dict Model.Re Gen.Const Gen.Sites Gen.DnsPure.
 
 Definition rkey (r : pyrec) : text := DNSEntry_key r.
 Definition skey (r : pyrec) : text := DNSService_server_key r.
@@ -142,10 +142,12 @@ Definition async_expire (c : cache) (now : Z) : list pyrec * result cache :=
   let ex := expired_records c now in (ex, cache_remove_records c ex).
 
 (* async_mark_unique_records_older_than_1s_to_expire *)
-Definition mark_one (now : Z) (answers : list pyrec) (c : cache) (u : text * Z * Z) : cache :=
+Definition mark_one :=
+  Eval cbv beta iota delta [sop_apply site_cache_flush_age] in
+  fun (now : Z) (answers : list pyrec) (c : cache) (u : text * Z * Z) =>
   let '(name, ty, cl) := u in
   fold_left (fun c r =>
-               if (now - DNSRecord_created r >? C_ONE_SECOND) && negb (existsb (fun a => gen_eq a r) answers)
+               if sop_apply site_cache_flush_age (now - DNSRecord_created r) C_ONE_SECOND && negb (existsb (fun a => gen_eq a r) answers)
                then cache_set_lifetime c r now 1 else c)
             (async_all_by_details c name ty cl) c.
 
